@@ -1,6 +1,6 @@
 """C15 — a ModelProto and an IR model are treated alike."""
 # the fallback path of convert_version (initializer payloads must survive it) has its contract in c10_version
-MODULES = ["contracts.c15_wrappers", "contracts.c10_version:requires_inline", "contracts.c10_version:call_onnx_api", "contracts.c04_process:move_initializers"]
+MODULES = ["contracts.c15_wrappers", "contracts.c10_version:requires_inline", "contracts.c10_version:call_onnx_api", "contracts.c04_process:move_initializers", "contracts.c15_native"]
 
 
 def INCLUDE(name):
@@ -155,6 +155,9 @@ sys.exit(bad)
 
 
 def replay(ob):
+    if ob["name"].startswith("C15.native."):
+        from contracts import c15_native
+        return c15_native.NATIVE
     if "renamed_initializer" in ob["name"]:
         return RENAMED_INITIALIZER
     if "replace_functions" in ob["name"]:
